@@ -11,7 +11,7 @@
      draw_pos     : each entry is > 0 (true of numpy's generator except with probability
                     2^-53 per draw; only zero_volume_never uses it) *)
 From Coq Require Import Reals ZArith List Permutation.
-From PV Require Import Num NumR Model_stats Proofs_stats Proofs_stats_batch Inst_stats Inst_stats_all
+From PV Require Import Num NumR Model_stats Proofs_stats Proofs_stats_batch Proofs_stats_range Inst_stats Inst_stats_all
                        Model_stats_session Proofs_stats_session.
 From PV.gen Require Import Gen_stats.
 Import ListNotations.
@@ -60,6 +60,16 @@ Theorem C15_draw_interval :
   (@searchsorted NumR false c u = k <-> psum fa k < u <= psum fa (S k))
   /\ psum fa (S k) - psum fa k = nth k fa 0.
 Proof. exact draw_interval. Qed.
+
+(* the RANGE of the drawn (sorted) position is the grain count, whatever the number of samples: for every M >= 1 and every
+   k < M there are normalised non-negative volumes of M grains and a legal variate 0 < u < 1 that select position k.  A
+   container for the drawn positions must therefore hold every value up to M - 1 (seeded change C15f sized it by n_samples) *)
+Theorem C15_draw_position_range :
+  forall (M k : nat), (k < M)%nat ->
+  exists (fa c : list R) (u : R),
+    length fa = M /\ Forall (fun x => 0 <= x) fa /\ lsum fa = 1 /\ @pin_last NumR (@cumsum NumR fa) = Ok c /\
+    0 < u < 1 /\ @searchsorted NumR false c u = k.
+Proof. exact draw_position_range. Qed.
 
 (* zero-volume grains are never drawn (variates in (0,1)) *)
 Theorem C15_zero_volume_never :
